@@ -9,6 +9,12 @@ Oracle: linearizability against a single-copy model.  Every operation runs insid
 of the cluster lock, so the lock-acquisition order is the linearisation; the model is
 stepped at the release and must agree with the return value; a write by a handle whose
 copy is out of date must raise a version-mismatch error and leave the files unchanged.
+
+Fault: `crash_write` kills a promoted handle inside an update right before a drawn operation on
+the status / version files; an operator removes the dead holder's lock marker after a drawn delay.
+From then on the model follows the status files on disk and the oracle is narrowed to the safety
+half: operations may fail or be rejected, but a handle whose copy is older than the status file on
+disk never gets a write through (JADE writes the version file before the status file for that).
 """
 import copy
 import json
@@ -37,9 +43,26 @@ def gen(ch, prof):
             ops.append({"op": g.weighted([("load_p", 4), ("load", 2), ("promote", 2), ("demote", 3), ("update", 4),
                                           ("complete_id", 1), ("mark_complete", 1), ("mark_canceled", 1),
                                           ("reload_jobs", 1), ("read", 1), ("sleep", 2), ("rogue_complete_id", 1),
-                                          ("takeover", 1), ("prepare_resubmit", 3)]),
+                                          ("takeover", 1), ("prepare_resubmit", 3), ("crash_write", 1),
+                                          ("rogue_cfg_write", 1)]),
                         "a": g.rint(0, 7), "b": g.rint(0, 7), "d": g.pick([0.0, 0.1, 1.0, 3.0])})
         handles.append({"host": hosts[g.rint(0, len(hosts) - 1)], "ops": ops, "start": g.pick([0.0, 0.0, 0.3, 2.0])})
+    if g.flip(0.2):
+        # crash focus: one handle is promoted, writes and dies inside a write; the others hold copies
+        # loaded at drawn moments before / after and try writes that skip the promotion
+        def mk(op, d=0.0):
+            return {"op": op, "a": g.rint(0, 7), "b": g.rint(0, 7), "d": d}
+
+        k = g.rint(0, n_handles - 1)
+        for i, h in enumerate(handles):
+            if i == k:
+                h["ops"] = [mk("load_p")] + [mk("update", g.pick([0.0, 0.1])) for _ in range(g.rint(0, 2))] + [mk("crash_write", g.pick([0.0, 0.1, 1.0]))]
+                h["start"] = 0.0
+            else:
+                h["ops"] = ([mk("load", g.pick([0.1, 1.0, 3.0]))] + [mk(g.pick(["rogue_cfg_write", "sleep", "load", "read"]), g.pick([0.1, 1.0, 3.0]))
+                                                                    for _ in range(g.rint(1, 4))]
+                            + [mk("rogue_cfg_write", 1.0), mk("load_p"), mk("update"), mk("rogue_cfg_write")])
+                h["start"] = g.pick([0.0, 0.05, 0.3])
     env = {"lock_behaviour": g.pick(["break_stale", "never_break"]), "stick": g.pick([0.3, 0.5, 0.7, 0.9]),
            "p_stall": g.pick([0.0, 0.0, 0.01]), "stall_max": 5.0}
     return {"kind": "comp_cluster", "n_jobs": n_jobs, "handles": handles, "creator_keeps_role": g.flip(0.2),
@@ -86,6 +109,8 @@ class Mon:
         self.refused = 0
         self.slot = {}
         self.dead = False
+        self.crashed = False      # a writer was killed inside a write: files may be half-updated
+        self.unreadable = False   # ... and at least one of them does not parse any more
 
     def bad(self, oracle, key, msg):
         self.w.violation("C10", oracle, key, msg)
@@ -105,10 +130,25 @@ class Mon:
                 err = None
                 try:
                     m.refresh()
+                    self.unreadable = False
                 except (state.Unparsable, TypeError, KeyError) as e:
                     err = str(e)
+                    if self.crashed:
+                        self.unreadable = True
                 self.slot[vpid] = {"before": self.before.pop(vpid, None), "after": after, "pre": pre,
                                    "post": {"cv": m.cv, "jv": m.jv, "submitter": m.submitter}, "err": err, "seq": seq}
+        elif kind == "kill":
+            # a writer died inside its critical section: the model follows the data files (what a new
+            # handle would load); rejections and load failures are legal from now on, accepted stale
+            # writes are not
+            self.pending.pop(vpid, None)
+            self.slot.pop(vpid, None)
+            self.before.pop(vpid, None)
+            self.crashed = True
+            try:
+                self.model.refresh()
+            except (state.Unparsable, TypeError, KeyError):
+                self.unreadable = True
         elif kind == "c10_op":
             self.pending[vpid] = d
             self.slot.pop(vpid, None)
@@ -119,6 +159,8 @@ class Mon:
         if op is None:
             return
         exc = ret.get("exc")
+        if slot is None and self.crashed:
+            return
         if slot is None:
             if exc and exc.startswith("Timeout"):
                 self.w.probe("lock_timeout_after_rejection")  # the operation did not take place
@@ -135,6 +177,9 @@ class Mon:
         name = op["op"]
         h = op["h"]
         cv, jv = op.get("cv"), op.get("jv")
+        if self.crashed:
+            self._check_after_crash(seq, op, ret, slot)
+            return
         if slot["err"]:
             self.bad("unreadable_after_write", "status unreadable after an operation released the lock",
                      f"seq {seq}: {name}: {slot['err']}")
@@ -199,6 +244,36 @@ class Mon:
             if not ret["value"]:
                 return
         self._written(seq, op, slot, ret.get("mem"))
+
+    def _check_after_crash(self, seq, op, ret, slot):
+        """A writer was killed between two file writes of one update.  What remains of the contract
+        (deliberately narrow): operations may fail or be rejected, but a handle whose copy is older than
+        the status file on disk must never get a write through."""
+        if self.unreadable or slot["err"]:
+            return
+        pre = slot["pre"]
+        before, after = slot["before"], slot["after"]
+        name, exc = op["op"], ret.get("exc")
+        cv, jv = op.get("cv"), op.get("jv")
+        if name in ("load", "load_p", "read", "reload_jobs") or cv is None:
+            return
+        if name == "promote" and not exc and not ret.get("value"):
+            return  # refused, nothing written
+        writes_cfg = name in ("promote", "demote", "update", "mark_complete", "mark_canceled", "takeover", "prepare_resubmit")
+        writes_js = name in ("update", "complete_id", "prepare_resubmit")
+        stale_cfg = writes_cfg and cv < pre["cv"]
+        stale_js = writes_js and jv is not None and jv < pre["jv"]
+        if not (stale_cfg or stale_js):
+            return
+        self.w.probe("stale_after_crash")
+        changed = [f for f in FILES if before is not None and before[f] != after[f]]
+        mine = [f for f in changed if (f in ("cluster_config.json", "config_version.txt") and stale_cfg)
+                or (f in ("job_status.json", "job_status_version.txt") and stale_js)]
+        if not exc or mine:
+            self.bad("stale_write_accepted", "a handle with an out-of-date copy wrote the cluster state",
+                     f"seq {seq}: after a writer was killed inside an update, {name} by handle {op['h']} with copy versions "
+                     f"cfg={cv} jobs={jv} (status files on disk: cfg={pre['cv']} jobs={pre['jv']}) "
+                     f"{'raised ' + exc if exc else 'was accepted'}; files changed: {changed}")
 
     def _written(self, seq, op, slot, mem):
         pre, post = slot["pre"], slot["post"]
@@ -310,7 +385,7 @@ def runner(scenario, prof, seed, trace=None, then_generate=False, props=()):
                     if c is None and name not in ("load", "load_p"):
                         name = "load_p" if o["a"] % 2 else "load"
                     # protocol: mutate only while promoted; demote only if promoted
-                    if name in ("update", "complete_id", "mark_complete", "mark_canceled", "demote", "prepare_resubmit") and not promoted:
+                    if name in ("update", "complete_id", "mark_complete", "mark_canceled", "demote", "prepare_resubmit", "crash_write") and not promoted:
                         name = "promote" if c is not None and o["b"] % 2 else "load_p"
                     if name in ("load_p", "promote") and promoted:
                         name = "update"
@@ -362,6 +437,22 @@ def runner(scenario, prof, seed, trace=None, then_generate=False, props=()):
                         else:
                             name = "complete_id"
                             w.probe("rogue_stale_write_attempted")
+                    if name == "rogue_cfg_write":
+                        # the same for the config: a caller that skipped promotion writes from a copy that is
+                        # older than the config on disk (attempted only then, so that a correct tree always
+                        # rejects it and it leaves no trace)
+                        if (c is None or promoted or mon.model is None or mon.unreadable
+                                or mon.model.cv == c.config.version):
+                            name = "load"
+                        else:
+                            name = "mark_canceled"
+                            w.probe("rogue_stale_cfg_write_attempted")
+                    if name == "crash_write":
+                        # the promoted handle dies (SIGKILL, node loss) inside its next write, right before
+                        # the k-th operation on the status / version files
+                        name = ("update", "demote", "mark_canceled")[o["a"] % 3]
+                        vp.tags["die_in"] = 1 + o["b"] % (8 if name == "update" else 4)
+                        vp.tags["heal_delay"] = 0.05 + 100.0 * o["d"]
                     desc = {"op": name, "h": idx, "host": vp.host}
                     if c is not None:
                         desc.update(cv=c.config.version, jv=c.job_status.version if c.job_status is not None else None,
@@ -468,6 +559,7 @@ def runner(scenario, prof, seed, trace=None, then_generate=False, props=()):
                             mon.dead = False
                             continue
                         return 1
+                    vp.tags.pop("die_in", None)
                     w.emit("c10_ret", vp, **ret)
                     if o["d"]:
                         w.sleep(vp, o["d"])
@@ -498,6 +590,41 @@ def runner(scenario, prof, seed, trace=None, then_generate=False, props=()):
             return False
 
         w.quiescent_hook = quiescent
+        base_hook = w.yield_hook
+        lp = os.path.join(out, "cluster_config.json.lock")
+
+        def read_marker():
+            try:
+                with seams.REAL["open"](lp, "rb") as fh:
+                    return fh.read()
+            except OSError:
+                return None
+
+        def hook(vp, kind, detail):
+            if base_hook is not None:
+                base_hook(vp, kind, detail)
+            n = vp.tags.get("die_in")
+            if n is None or not kind.startswith("fs:") or os.path.basename(str(detail)) not in FILES:
+                return
+            if n > 1:
+                vp.tags["die_in"] = n - 1
+                return
+            vp.tags.pop("die_in")
+            w.fault_fired("kill_in_write")
+            w.emit("fault", vp, fault="kill_in_write", detail=[kind, w.rel(str(detail))])
+            marker = read_marker()
+
+            def operator():
+                # the operator removes the dead holder's marker (and nobody else's)
+                if marker is not None and read_marker() == marker:
+                    seams.REAL["os.unlink"](lp)
+                    w.emit("operator_heal", None, path=w.rel(lp), dead_holder=True)
+                    w.wake_lock_waiters(lp)
+
+            w.after(vp.tags.get("heal_delay", 1.0), operator, "operator")
+            w.request_kill(vp, "fault:kill_in_write", True)
+
+        w.yield_hook = hook
         try:
             w.run()
         finally:
